@@ -250,6 +250,8 @@ def iszerovec(v, tol=10):
 def _double(v):
     # the norm of a half- or single-precision array is computed in double
     # precision (in float16 the norm of [1, 0.02] rounds to exactly 1)
+    if isinstance(v, (list, tuple)) and any(isinstance(x, np.floating) and x.dtype.itemsize < 8 for x in v):
+        v = np.array(v)  # a list of half- or single-precision scalars
     if isinstance(v, np.ndarray) and v.dtype.kind == 'f' and v.dtype.itemsize < 8:
         return v.astype(np.float64)
     return v
